@@ -134,3 +134,66 @@ def assign_keys(ctx: Ctx) -> None:
                     (ctx.ok if good else ctx.bad)(R, f, a, 'the value aligned (or taken) just before is what is assigned' if good else f'assigns `{norm(second)}`, not the value prepared for this branch',
                                                   key=f'assigned#{n_as}')
     ctx.require(n_as >= 3, 'block assignments in FrameAssignILoc.__call__')
+
+
+def aligned_store_key(ctx: Ctx) -> None:
+    R = 'I.aligned-store-same-key'
+    ctx.rule(R, 'a labelled value written into selected positions (`array[K] = v`, v the `.values` of the reindexed value) is aligned to the receiver\'s own labels at '
+             'exactly those positions: the reindex is `_reindex_other_like_iloc(value, K)` with the same K as the store, or `.reindex(<own index>[K] / '
+             '._extract_iloc(K))`; a reindex to anything else (a sorted set-operation result, the value\'s own labels) puts the values of other labels into the '
+             'selected cells', floor=2)
+    prog = ctx.prog
+    n = 0
+    for f in prog.all_funcs():
+        if isinstance(f.node, ast.Lambda) or f.module.short not in ('series', 'frame', 'index', 'container_util'):
+            continue
+        stmts = [s for s in walk_local(f.node) if isinstance(s, ast.Assign) and len(s.targets) == 1]
+        for a in stmts:
+            # v = <...>.reindex(...).values  /  v = <c>._reindex_other_like_iloc(value, K', ...).values
+            if not (isinstance(a.targets[0], ast.Name) and isinstance(a.value, ast.Attribute) and a.value.attr == 'values' and isinstance(a.value.value, ast.Call)):
+                continue
+            call = a.value.value
+            cn = call_name(call).split('.')[-1]
+            if cn not in ('reindex', '_reindex_other_like_iloc'):
+                continue
+            v = a.targets[0].id
+            stores = [s for s in stmts if isinstance(s.targets[0], ast.Subscript) and isinstance(s.value, ast.Name) and s.value.id == v and s.lineno > a.lineno
+                      and isinstance(s.targets[0].value, ast.Name)]
+            for s in stores:
+                k = s.targets[0].slice
+                ktxt = norm(k)
+                # the key is not rebound between the alignment and the store
+                rebound = [x for x in stmts if a.lineno < x.lineno < s.lineno and norm(x.targets[0]) == ktxt]
+                n += 1
+                key = f'{f.qualname.split(".", 1)[1]}:{norm(s.targets[0].value)}[{ktxt}]'
+                if rebound:
+                    ctx.bad(R, f, s, f'`{ktxt}` is rebound between the alignment of the value and the store: the values were aligned to another selection', key=key)
+                    continue
+                if cn == '_reindex_other_like_iloc':
+                    got = norm(call.args[1]) if len(call.args) > 1 else norm(kwarg(call, 'iloc_key'))
+                    if got == ktxt:
+                        ctx.ok(R, f, s, f'value aligned with _reindex_other_like_iloc(..., {ktxt}) and stored at [{ktxt}]', key=key)
+                    else:
+                        ctx.bad(R, f, call, f'the value is aligned to the labels at `{got}` but stored at `[{ktxt}]`', key=key)
+                    continue
+                tgt = call.args[0] if call.args else kwarg(call, 'index')
+                tgt_i = roles.Inliner(f.node).expr(tgt) if tgt is not None else None
+                t = norm(tgt_i)
+                # the target itself is <recv>._index._extract_iloc(K) / <recv>.index[K] / <recv>.index.iloc[K]
+                def own_at_key(e: tp.Optional[ast.expr]) -> bool:
+                    if isinstance(e, ast.Call) and isinstance(e.func, ast.Attribute) and e.func.attr == '_extract_iloc' and len(e.args) == 1:
+                        base, kk = e.func.value, e.args[0]
+                    elif isinstance(e, ast.Subscript):
+                        base, kk = e.value, e.slice
+                        if isinstance(base, ast.Attribute) and base.attr in ('iloc',):
+                            base = base.value
+                    else:
+                        return False
+                    return norm(kk) == ktxt and isinstance(base, ast.Attribute) and base.attr in ('_index', 'index')
+                own = own_at_key(tgt_i) or own_at_key(tgt)
+                if own:
+                    ctx.ok(R, f, s, f'value reindexed to `{t[:60]}` (the receiver\'s labels at the stored positions)', key=key)
+                else:
+                    ctx.bad(R, f, call, f'the value is reindexed to `{t[:60]}`, not to the receiver\'s own labels at `[{ktxt}]`, and then stored by position: cells receive the '
+                            'values of other labels (a set-operation result is sorted, the receiver need not be)', key=key)
+    ctx.require(n >= 2, 'positional stores of label-aligned values')
